@@ -370,6 +370,27 @@ def targeted_let_family():
     return out
 
 
+def targeted_distinct_family():
+    """distinct (group {all columns} (take 1)) followed by a join / aggregate / filter and a projection of the distinct columns"""
+    out = []
+    for head in ("sel",):
+        for j in ("join_inner", "join_left", "join_right", "join_full", "join_v"):
+            for proj in ("select_2", "select_last", None):
+                seq = ("select_2", "distinct", j) + ((proj,) if proj else ())
+                pipe = build(head, seq)
+                if pipe is not None:
+                    out.append((f"{head}:" + ">".join(seq), Prog(pipe)))
+                seq = ("distinct", j) + ((proj,) if proj else ())
+                pipe = build(head, seq)
+                if pipe is not None:
+                    out.append((f"{head}:" + ">".join(seq), Prog(pipe)))
+        for after in ("agg", "group_agg", "filter_gt", "derive_add", "win_sum", "sort_asc", "append"):
+            pipe = build(head, ("select_2", "distinct", after))
+            if pipe is not None:
+                out.append((f"{head}:select_2>distinct>{after}", Prog(pipe)))
+    return out
+
+
 def family_c01(tier, seed):
     """quick: all pipelines of <=2 templates on both heads + a seed-rotated slice of length 3;
     thorough: all of length <=3 on the explicit-column head, <=2 on the wildcard head, plus a slice of length 4"""
@@ -386,7 +407,7 @@ def family_c01(tier, seed):
         rr.shuffle(l2)
         rr.shuffle(l3)
         l2, l3 = l2[:300], l3[:150]
-    out += l2 + l3 + targeted_let_family()
+    out += l2 + l3 + targeted_let_family() + targeted_distinct_family()
     out += list(enumerate_family(1 if tier == "quick" else 2, heads=("lit",)))
     if tier == "quick":
         out += list(enumerate_family(2))
@@ -615,6 +636,20 @@ def family_c02(tier, seed):
 
 
 # ---------------------------------------------------------------- C03: ordered family
+def targeted_sort_join_take_family():
+    """sort, then a join, then a take, then an order-resetting or projecting transform"""
+    out = []
+    for s_ in ("sort_asc", "sort_desc2", "sort_last_desc"):
+        for j in ("join_inner", "join_left", "join_v"):
+            for tk in ("take_n", "take_2", "take_range"):
+                for after in ("group_agg", "agg", "select_2", "filter_gt", "derive_add", None):
+                    seq = (s_, j, tk) + ((after,) if after else ())
+                    pipe = build("sel", seq)
+                    if pipe is not None:
+                        out.append(("sel:" + ">".join(seq), Prog(pipe)))
+    return out
+
+
 def family_c03(tier, seed):
     """every pipeline (explicit-column head) that contains at least one sort, over the sort/take-centred alphabet"""
     names = ["sort_asc", "sort_desc2", "sort_last_desc", "take_n", "take_2", "take_range", "take_open", "select_2", "select_comp",
@@ -662,10 +697,10 @@ def family_c03(tier, seed):
         rr = random.Random(seed + 1)
         rr.shuffle(l3)
         l3 = l3[:200]
-    out += [x for x in l3 if x[0].count(">") == 2] + targeted_let_family()
+    out += [x for x in l3 if x[0].count(">") == 2] + targeted_let_family() + targeted_sort_join_take_family()
     if tier == "quick":
         rnd = random.Random(seed)
-        head = [x for x in out if x[0].startswith("x:") or x[0].startswith("let_") or x[0].count(">") <= 1]
+        head = [x for x in out if x[0].startswith("x:") or x[0].startswith("let_") or x[0].count(">") <= 1 or x[0].count(">") == 3]
         rest = [x for x in out if not (x[0].startswith("x:") or x[0].count(">") <= 1)]
         rnd.shuffle(rest)
         out = head + rest[:500]
@@ -725,7 +760,13 @@ def family_c04(tier, seed):
     s = lambda col="b": Fn("sum", C(col))
     extra = [
         ("x:win-in-filter", [From("t"), Select("a", "b"), Filter(b < Fn("max", b))]),
-        ("x:win-in-filter-sorted", [From("t"), Select("a", "b"), Sort("a"), Filter(Fn("row_number", C("this")) <= 2)]),
+        ("x:win-in-filter-sorted", [From("t"), Select("a", "b"), Sort("a"), Filter(Fn("row_number", C("this")) <= 1)]),
+        ("x:win-in-filter-sorted-desc", [From("t"), Select("a", "b"), Sort("-b"), Filter(Fn("row_number", C("this")) <= 1)]),
+        ("x:win-in-filter-lag", [From("t"), Select("a", "b"), Sort("b"), Filter((C("a") != Fn("lag", 1, C("a"))) | (C("a") == None))]),  # noqa: E711
+        ("x:win-in-filter-group-sorted", [From("t"), Select("a", "b", "c"), Group(["a"], Sort("-c"), Filter(Fn("row_number", C("this")) <= 1))]),
+        ("x:win-in-filter-rank", [From("t"), Select("a", "b"), Sort("b"), Filter(Fn("rank", C("b")) == 1)]),
+        ("x:win-in-filter-rolling", [From("t"), Select("a", "b"), Sort("a"), Window(Filter(Fn("sum", C("b")) > 0), rolling=1)]),
+        ("x:win-in-filter-first", [From("t"), Select("a", "b"), Sort("a"), Filter(C("b") == Fn("first", C("b")))]),
         ("x:win-in-sort", [From("t"), Select("a", "b"), Derive(w=Fn("sum", b)), Sort("w", "a")]),
         ("x:win-then-filter", [From("t"), Select("a", "b"), Sort("a"), Window(Derive(w=s()), rolling=2), Filter(w > 3)]),
         ("x:win-then-derive", [From("t"), Select("a", "b"), Sort("a"), Window(Derive(w=s()), rolling=2), Derive(tot=s(), n=Fn("count", b))]),
@@ -785,6 +826,12 @@ def family_c05(tier, seed):
         ("p:join-sel-then", [From("t"), Select("a", "b"), J()]),
         ("p:join-sel-sub", [From("t"), Select("a", "b"), Join([From("u"), Select("a", "b")], "==a")]),
         ("p:join-sel-sub-alias", [From("t"), Select("a", "b"), Join([From("u"), Select("a", "b")], "==a", alias="w")]),
+        ("p:wild-excl", [From("t"), SelectNot("b")]),
+        ("p:wild-excl2", [From("t"), SelectNot("a", "c")]),
+        ("p:join-wild-excl-left", [From("t"), J(), SelectNot("t.b")]),
+        ("p:join-wild-excl-right", [From("t"), J(), SelectNot("u.b")]),
+        ("p:join-wild-excl-both", [From("t"), J("left"), SelectNot("t.c", "u.a")]),
+        ("p:join-wild-excl-derive", [From("t"), J(), Derive(x=C("t.a") + 1), SelectNot("t.b")]),
         ("p:join-derive", [From("t"), Select("a", "b"), Derive(x=a + 1), J()]),
         ("p:join-excl-right", [From("t"), Select("a", "b"), Join([From("u"), Select("a", "b")], "==a"), SelectNot("u.a")]),
         ("p:join-excl-left", [From("t"), Select("a", "b"), Join([From("u"), Select("a", "b")], "==a"), SelectNot("t.b")]),
@@ -857,6 +904,11 @@ def family_c09(tier, seed):
             ("x:derive-named-_expr_1", Prog([From("table_0"), Select("a", "_expr_0"), Derive(_expr_1=C("a") + 1), Group(["a"], Sort("_expr_0"), Take(1))])),
             ("x:two-ctes", Prog([From("table_0"), Select("a", "c"), Derive(x=C("a") + 1), Filter(C("x") > 1), Sort("c"), Take(2), Join("table_1", "==a"), Filter(C("table_1._expr_0") > 0)])),
             ("x:subpipeline-join", Prog([From("table_0"), Select("a", "c"), Join([From("table_1"), Derive(k=C("a") + 1), Filter(C("k") > 1)], "==a")])),
+            # duplicate column names at a split next to a user column named like the generated replacement
+            ("x:dup-at-split-user-_expr_0", Prog([From("table_0"), Join("table_1", "==a"), Select("table_0.a", "table_1.a", "table_0._expr_0"), Sort("_expr_0"), Take(1), Filter(C("_expr_0") > 0)])),
+            ("x:dup-at-split-user-_expr_0-b", Prog([From("table_0"), Join("table_1", "==a"), Select("table_0.a", "table_1.a", "table_0._expr_0"), Sort("-_expr_0"), Take(2), Filter(C("_expr_0") != None), Sort("_expr_0")])),  # noqa: E711
+            ("x:dup-at-split-user-_expr_1", Prog([From("table_0"), Select("a", "c", _expr_1=C("c") + 1), Join("table_1", "==a"), Select("table_0.a", "table_1.a", "table_1._expr_0", "_expr_1"), Sort("_expr_1"), Take(1), Filter(C("_expr_1") > 0)])),
+            ("x:dup-at-split-derive", Prog([From("table_0"), Join("table_1", "==a"), Select("table_0.a", "table_1.a", "table_0._expr_0"), Derive(z=C("_expr_0") + 1), Filter(C("z") > 1)])),
             # relation instances that need an invented alias next to user relations named like generated ones
             ("x:dup-table-no-alias", Prog([From("table_2"), Join("table_0", C("table_2.a") == C("table_0.a")), Join("table_2", C("table_0.c") == C("that.d"))])),
             ("x:dup-table-no-alias-1", Prog([From("table_2"), Join("table_1", C("table_2.a") == C("table_1.a")), Join("table_2", C("table_1.a") == C("that.d"))])),
